@@ -89,6 +89,11 @@ CHECKS = {
          "Held on the executions observed: nesting / literal / class / Rust-call / multi-line-construct generators and the trigger project under layout variation (0-400 leading lines, CRLF, no final newline, indentation, decorators, multi-line headers and calls) for all commands; evidence counts violations inspected, constructs checked per family and contract evaluations.",
          "Trusted: generator facts (header lines, literal lines, call spans); columns are byte offsets; syntax-error notices and file-placement are exempt.",
          "DESIGN.md section 4 C12"),
+
+ "C13": ("runtime monitoring: base run vs edited run (sequence of 1-4 meaning-preserving edits) of the relevant commands; metamorphic oracle on (rule, file, mapped line, message*) multisets, columns included when the edit leaves indentation and line 1 alone",
+         "Held on the executions observed: bases with constructs on and around the configured thresholds (nesting depth == limit, class LOC == max_loc, run length == min_duplicate_lines) plus the trigger project; edits: blank/comment insertion, trailing whitespace, consistent re-indentation, LF->CRLF, add/remove BOM, appended code, renaming of filler identifiers; evidence counts comparisons per edit kind.",
+         "Trusted: edits are meaning-preserving on the generated files (no multi-line strings, renames touch only filler identifiers); header-sensitive linters only below line 12; DRY messages compared on occurrence count.",
+         "DESIGN.md section 4 C13"),
 }
 PENDING = {}
 props = [json.loads(l) for l in open(os.path.join(HERE, "properties.jsonl"))]
